@@ -23,7 +23,9 @@ EXPLANATION = (
     "is computed only when none is given; (FX-PARAM) the oracle argument (and its circuit) is not modified - the "
     "phase qubit and gate go onto a copy; (SB-TWIN) decode_output/output_qubits read the search register with the "
     "argument's type and length; (FX-FLOW) oraclize binds the wrapped function through a to_logicfun() copy and "
-    "compares its result with the element.  It does NOT decide any clause about the output distribution, nor the "
+    "compares its result with the element; (MP-reverse/MP-keep-guard, shared with C03) the compiler's final reverse "
+    "replay, which returns the oracle's scratch qubits to zero, walks every gate in reverse and keeps only the result "
+    "qubits.  It does NOT decide any clause about the output distribution, nor the "
     "iteration-count formula."
 )
 NOT_DECIDED = "every clause about the output distribution; the iteration-count formula; the oracle's own correctness"
